@@ -216,8 +216,9 @@ class DirectCollocation(SamplingMethod):
                     # Collocation constraints
                     opti.subject_to(Pidot_j == res["ode"], scale=scale_der_x)
                     self.q = self.q + res["quad"]*dt*self.B[j]
-                    if stage.nz:
-                        opti.subject_to(0 == res["alg"], scale = scale_z)
+                    if res["alg"].numel():
+                        # algebraic equations are imposed whenever they are declared (also without algebraic variables)
+                        opti.subject_to(0 == res["alg"], scale = scale_z if res["alg"].numel()==stage.nz else 1)
                     for c, meta, args in stage._constraints["integrator_roots"]:
                         opti.subject_to(self.eval_at_integrator_root(stage, c, k, i, j), scale=args["scale"], meta=meta)
 
